@@ -1,33 +1,18 @@
 #!/bin/bash
-# Mutation self-test of the rs2coq tie: mutate a SCRATCH COPY of the Rust source (never /repo),
-# regenerate Src.v from it into a scratch directory, and check that the equivalence proofs
-# (proofs/SrcEquiv.v, proofs/SrcEquiv2.v) no longer compile; the unmodified source must compile.
-# Everything happens under /var/tmp/rs2coq_selftest.  Exit 0 iff every expectation is met.
+# Mutation self-test of the rs2coq tie (development tool, not a registered check): mutate a SCRATCH
+# COPY of the Rust source (never /repo), regenerate gen/Src*.v from it into a scratch copy of the
+# Coq tree, and check that the equivalence proofs (proofs/SrcEq*.v) stop compiling exactly for
+# harmful mutations; the unmodified source and harmless rewrites must still compile.
+# Everything happens under /var/tmp/rs2coq_selftest (removed at the end).  Exit 0 iff every expectation is met.
 set -u
 HERE="$(cd "$(dirname "$0")" && pwd)"
 W=/var/tmp/rs2coq_selftest
-COQ=/verif/coq
 rm -rf "$W"; mkdir -p "$W"
+rsync -a --exclude 'scratch_*' /verif/coq/ "$W/coq/"
+( cd "$W/coq" && coq_makefile -f _CoqProject -o Makefile >/dev/null 2>&1 )
+TARGETS="proofs/SrcEquiv.vo proofs/SrcEquiv2.vo proofs/SrcEqBigintC.vo proofs/SrcEqParse.vo"
+for f in proofs/SrcEqMantissa.v proofs/SrcEqSlow.v proofs/SrcFinal.v; do [ -f "$W/coq/$f" ] && grep -q "^$f" "$W/coq/_CoqProject" && TARGETS="$TARGETS ${f%.v}.vo"; done
 fails=0
-
-# compile the scratch Src.v + the proofs against it (logical path MUT for the scratch files)
-compile() {  # $1 = scratch dir holding Src.v
-  local d="$1"
-  sed -e 's/^From ML Require Import gen\.Src\./From MUT Require Import Src./' \
-      -e 's/^From ML Require Import proofs\.SrcEquiv\./From MUT Require Import SrcEquiv./' \
-      "$COQ/proofs/SrcEquiv.v" > "$d/SrcEquiv.v"
-  sed -e 's/^From ML Require Import gen\.Src\./From MUT Require Import Src./' \
-      -e 's/^From ML Require Import proofs\.SrcEquiv\./From MUT Require Import SrcEquiv./' \
-      "$COQ/proofs/SrcEquiv2.v" > "$d/SrcEquiv2.v"
-  for f in Src SrcEquiv SrcEquiv2; do
-    if ! ( cd "$d" && timeout 900 coqc -Q "$COQ" ML -Q "$d" MUT -w -notation-overridden "$f.v" ) > "$d/$f.log" 2>&1; then
-      echo "    coqc $f.v FAILED: $(grep -m1 -A3 '^File' "$d/$f.log" | tr '\n' ' ' | cut -c1-230)"
-      return 1
-    fi
-  done
-  echo "    coqc Src.v SrcEquiv.v SrcEquiv2.v: all compiled"
-  return 0
-}
 
 run_case() {  # name  file  sed-expression  expectation(ok|coqfail|transfail)
   local name="$1" file="$2" expr="$3" expect="$4"
@@ -41,9 +26,10 @@ run_case() {  # name  file  sed-expression  expectation(ok|coqfail|transfail)
     echo "[$name] unmodified source"
   fi
   local got
-  if RS2COQ_SRC="$d/src" RS2COQ_OUT="$d/Src.v" "$HERE/run.sh" > "$d/run.log" 2>&1; then
+  if RS2COQ_SRC="$d/src" "$HERE/run.sh" "$W/coq/gen" > "$d/run.log" 2>&1; then
     echo "    $(grep -m1 '^rs2coq: omitted:' "$d/run.log")"
-    if compile "$d"; then got=ok; else got=coqfail; fi
+    if ( cd "$W/coq" && timeout 3000 make -j8 $TARGETS ) > "$d/make.log" 2>&1; then got=ok; else got=coqfail
+      echo "    $(grep -m1 -A2 '^File' "$d/make.log" | tr '\n' ' ' | cut -c1-220)"; fi
   else
     echo "    translator refused: $(grep -m1 'ERROR' "$d/run.log" | cut -c1-200)"
     got=transfail
@@ -59,5 +45,19 @@ run_case mut4      mask.rs       's/match n == 64 {/match n == 63 {/'           
 run_case mut5      bellerophon.rs 's/(lz + 1).min(24)/(lz + 1).min(25)/'                     coqfail
 run_case mut6      slow.rs       's/while mantissa >= 100 {/while mantissa > 100 {/'         coqfail
 run_case mut7      mask.rs       's/debug_assert!(n < 64,/assert!(n < 64,/'                  coqfail
+# bigint.rs / parse.rs (rules 14-23)
+run_case mut8      bigint.rs     's/tmp |= result.1;/tmp = result.1;/'                       coqfail
+run_case mut9      bigint.rs     's/small_add_from(x, 1, y.len() + start)?;/small_add_from(x, 1, y.len())?;/' coqfail
+run_case mut10     bigint.rs     's/let rs = 64 - ls;/let rs = 63 - ls;/'                    coqfail
+run_case mut11     bigint.rs     's/while exp >= small_step {/while exp > small_step {/'     coqfail
+run_case mut12     parse.rs      's/if count == 20 {/if count == 19 {/'                      coqfail
+run_case mut13     parse.rs      's/exponent.saturating_sub(fraction_count as i32 - 1)/exponent.saturating_sub(fraction_count as i32)/' coqfail
+run_case mut14     parse.rs      's/fp.exp -= F::INVALID_FP;/fp.exp += F::INVALID_FP;/'       coqfail
+# harmless rewrites (renamed locals, reordered independent lets): must still compile
+run_case harm1     lemire.rs     's/\bupperbit\b/top_bit/g; s/\bpower2\b/bin_exp/g'          ok
+run_case harm2     bigint.rs     '/pub fn small_add_from/,/^}/ s/\bindex\b/pos/g'            ok
+run_case harm3     parse.rs      's/\bfraction_count\b/nfrac/g'                              ok
+# restore the scratch tree is not needed: it is removed
+rm -rf "$W"
 if [ $fails -eq 0 ]; then echo "selftest: PASS"; else echo "selftest: $fails FAILURE(S)"; fi
 exit $fails
